@@ -52,6 +52,19 @@ theorem release_formula_ghost (red : Reduction) (E : Nat) (z : Grad ℝ d) (m : 
   rw [h4]
   cases red <;> simp [release, modelCarrier]
 
+/-- **release_empty_batch**: a logical step whose (Poisson) batch is empty – one backward pass over zero samples –
+releases pure noise, `z / E` for mean-reduced losses and `z` for sum-reduced ones, in every clipping mode -/
+theorem release_empty_batch (m : Mode ℝ P) (red : Reduction) (E : Nat) (z : Grad ℝ d) :
+    ∃ st', runLogical (rc d m) red E z [[[]]] St.init = some st' ∧
+      st'.grad = some (match red with
+        | .mean => gdiv z ((E : ℕ) : ℝ)
+        | .sum => z) := by
+  obtain ⟨st', h1, h2⟩ := release_formula m red E z [[[]]] (by simp) (by simp)
+  refine ⟨st', h1, ?_⟩
+  rw [h2]
+  have h0 : gadd (gzero : Grad ℝ d) z = z := by funext k j; simp [gadd, gzero]
+  cases red <;> simp [batchSum, h0]
+
 /-! ## Consequences -/
 
 /-- **below_C_unchanged**: an example whose joint norm is below the bound (by the 1e-6 margin the
